@@ -143,6 +143,21 @@ def match_case(draw, ctx, big=False):
     if mode != "search" and draw(st.booleans()):
         # the designation is a set: the order in which the caller lists the fixed points must not matter
         case["order"] = draw(st.permutations(list(range(len(fixed)))))
+    if mode != "search" and draw(st.integers(0, 2)) == 0:
+        # documented: the search strategy is used "if fixed points are not specified" - with an explicit designation
+        # it must be irrelevant (reference positions are matched to the nearest fixed point either way)
+        case["decoy_strategy"] = draw(st.sampled_from(["lower", "higher"]))
+    if mode == "indices" and draw(st.integers(0, 2)) == 0:
+        # documented: "fixed_points_indices_in_x: if set, fixed_points_in_x is set according to that points" - a
+        # fixed_points_in_x handed over next to the indices (another subset of the samples) is overridden
+        pool = [i for i in range(m) if i not in fixed]
+        nd = draw(st.integers(1, max(1, min(len(pool), len(fixed) + 2))))
+        picks = draw(st.lists(st.sampled_from(pool), min_size=nd, max_size=nd, unique=True)) if pool else []
+        case["decoy_points"] = sorted(set([fixed[0], fixed[-1]][:draw(st.integers(0, 2))] + picks))
+    if case["facade"]:
+        # reference-changing operations before the matching: the facade must match against the reference as it is
+        # *now* (get_reference()), not against the series the Weaver was constructed with.  Powers of two: exact.
+        case["facade_pre"] = [draw(st.sampled_from([1.0, 2.0, 0.5, 4.0])), draw(st.sampled_from([1.0, 1.0, 2.0, 0.25]))]
     yr = draw(ys(len(case["x_ref"])))
     case["y_ref"] = yr["y"]
     case["yrkind"] = yr["kind"]
@@ -203,6 +218,10 @@ def call_kwargs(case):
     else:
         order = case.get("order") or range(len(case["fixed"]))
         kw["fixed_points_indices_in_x"] = [case["fixed"][k] for k in order]
+        if case.get("decoy_points"):
+            kw["fixed_points_in_x"] = [case["x"][i] for i in case["decoy_points"]]
+    if case.get("decoy_strategy"):
+        kw["fixed_points_finding_strategy"] = case["decoy_strategy"]
     return kw
 
 
@@ -223,6 +242,12 @@ def classes(case):
         cls.append("int-dtype-x")
     if case.get("order") and list(case["order"]) != sorted(case["order"]):
         cls.append("unordered-fixed-points")
+    if case.get("decoy_strategy"):
+        cls.append("explicit+irrelevant-strategy")
+    if case.get("decoy_points"):
+        cls.append("indices+overridden-positions")
+    if case.get("facade") and case.get("facade_pre") not in (None, [1.0, 1.0]):
+        cls.append("facade-after-scaling")
     return cls
 
 
